@@ -596,6 +596,23 @@ pub fn probe(name: &str) -> Result<()> {
             let r = std::panic::catch_unwind(std::panic::AssertUnwindSafe(|| b.deep_clone().is_error()));
             println!("b.deep_clone() -> {:?}", r.map_err(|_| "PANIC"));
         }
+        "fuel_mask" => {
+            // fuel runs out in the middle of the first mask computation
+            let v = byte_vocab();
+            let env = make_tok_env(&v, true);
+            let fac = make_factory(&env, &Some(vec![]), &LimitsSpec::default(), false)?;
+            let g = top_level_grammar(GKind::Lark, "start: item{2,5} \".\"\nitem: \"ab\" | \"a\" | \"abc\"\n")?;
+            for k in 0..12u32 {
+                let mut m = Matcher::new(fac.create_parser(g.clone()));
+                crate::sched::FUEL_FAULT.with(|x| x.set(Some(k)));
+                let r1 = m.compute_mask().map(|m| m.to_list()).map_err(|e| short1(&e.to_string()));
+                crate::sched::FUEL_FAULT.with(|x| x.set(None));
+                let r2 = m.compute_mask().map(|m| m.to_list()).map_err(|e| short1(&e.to_string()));
+                let r3 = m.consume_token(b'a' as u32).map_err(|e| short1(&e.to_string()));
+                let r4 = m.compute_mask().map(|m| m.to_list()).map_err(|e| short1(&e.to_string()));
+                println!("fuel fault at transition {k}: mask1={:?} mask2={:?} commit(a)={:?} mask3={:?}", r1, r2, r3, r4);
+            }
+        }
         _ => bail!("unknown probe"),
     }
     Ok(())
